@@ -56,19 +56,24 @@ def describe(sc, env, upto=None):
     return ds.dp.descriptor
 
 
-def gen_pipeline(rng, tables, nsteps, tags=None, exclude=(), stats=None, must_include=None):
-    """Incrementally draw steps against the real descriptor.  Returns the scenario dict."""
-    sc = {'tables': tables, 'steps': []}
-    g = ST.G(tags=tags, exclude=exclude)
+def gen_pipeline(rng, tables, nsteps, tags=None, exclude=(), stats=None, sc=None, g=None, source_kinds=None):
+    """Incrementally draw steps against the real descriptor.  Returns the scenario dict.  With ``sc`` given,
+    extends that scenario by up to nsteps more steps (continuing its name counters through ``g``)."""
+    if sc is None:
+        sc = {'tables': tables, 'steps': []}
+        if source_kinds:
+            sc['source_kinds'] = source_kinds
+    g = g or ST.G()
+    g.tags, g.exclude = tags, set(exclude)
     stats = stats if stats is not None else {}
-    env = {'calls': {}}
     try:
-        desc = describe(sc, env)
-    except Exception as e:  # noqa
-        stats['bad-tables'] = stats.get('bad-tables', 0) + 1
+        desc = describe(sc, {'calls': {}})
+    except Exception:  # noqa
+        stats['bad-prefix'] = stats.get('bad-prefix', 0) + 1
         raise
     attempts = 0
-    while len(sc['steps']) < nsteps and attempts < nsteps * 4:
+    added = 0
+    while added < nsteps and attempts < nsteps * 4:
         attempts += 1
         d = ST.D(desc)
         if not d.res:
@@ -79,10 +84,16 @@ def gen_pipeline(rng, tables, nsteps, tags=None, exclude=(), stats=None, must_in
         sc['steps'].append(spec)
         try:
             desc = describe(sc, {'calls': {}})
-        except Exception as e:  # noqa  -> ill-typed candidate, discard
+            names = [r['name'] for r in desc.get('resources', [])]
+            if len(set(names)) != len(names):
+                # e.g. an iterable appended after a deletion re-uses 'res_<n>': not a well-formed package (unique names are C02's business)
+                raise ValueError('duplicate resource names')
+            added += 1
+        except Exception:  # noqa  -> ill-typed candidate, discard
             sc['steps'].pop()
             stats['ill-typed-step'] = stats.get('ill-typed-step', 0) + 1
             stats['ill:' + spec['step']] = stats.get('ill:' + spec['step'], 0) + 1
+    sc['_g'] = g.n
     return sc
 
 
